@@ -4,7 +4,7 @@ import json, os, subprocess, sys
 import vlib, families as F
 from gen import Gen
 
-QUICK_TYPES = {"d": 1.0, "s": 0.25, "z": 0.35, "c": 0.15}
+QUICK_TYPES = {"d": 0.8, "s": 0.35, "z": 0.45, "c": 0.35}      # every type gets a substantial share: the four type files are maintained separately
 FULL_TYPES = {"d": 1.0, "s": 1.0, "z": 1.0, "c": 1.0}
 
 
@@ -56,7 +56,7 @@ def check_C03(run):
     scen = merge(scen, {ty: [F.history_scenario(g, "C03-hist-%05d-%s" % (i, ty), ty, hists[i % len(hists)]) for i in range(sizes(run, 150, 1200) // (1 if ty == "d" else 4))] for ty in ("d", "z", "s")})
     run.conform("lu", scen, ["C03."], tv_env={"MODE": "light"})        # storage clauses only: the numeric replay belongs to C02
     # incomplete factors: the same predicate, except that U may repeat a row index with an explicit zero
-    types_ilu = {"d": 1.0, "z": 0.4, "s": 0.2, "c": 0.2} if run.tier == "quick" else FULL_TYPES
+    types_ilu = {"d": 0.85, "z": 0.45, "s": 0.35, "c": 0.35} if run.tier == "quick" else FULL_TYPES
     run.conform("ilu", merge(F.fam_ilu(g, "C03", sizes(run, 500, 5000), types_ilu), F.fam_ilu_split(g, "C03", sizes(run, 100, 1000), types_ilu)), ["C03.", "C15.C03."], tv_env={"MODE": "light"})
     return run.finish(rule="every successful factorization of the ?gssv / ?gstrf / tall / SymmetricMode / reuse-history families and every incomplete factorization of the ?gsisx families, in four types, is checked against SluStore!WellFormed clause by clause (raw SCformat / NCformat arrays with their allocated lengths)")
 
@@ -65,7 +65,7 @@ def check_C04(run):
     mc_factor(run, ["q", "tall"], ["p", "t"])
     g = Gen(run.seed * 1000 + 4)
     types = QUICK_TYPES if run.tier == "quick" else FULL_TYPES
-    scen = merge(F.fam_singular(g, "C04", sizes(run, 600, 5000), types), F.fam_singular(g, "C04", sizes(run, 200, 2000), types, fn="gssvx"),
+    scen = merge(F.fam_singular(g, "C04", sizes(run, 600, 5000), types), F.fam_singular(g, "C04", sizes(run, 160, 1600), {"d": 1.0, "z": 1.0, "s": 1.0, "c": 1.0}, fn="gssvx"),
                  F.fam_reusezero(g, "C04", sizes(run, 300, 3000), types))
     run.conform("sing", scen, ["C04."])
     return run.finish(rule="exactly singular matrices (empty rows/columns, Hall violations, duplicated lines) through ?gssv and ?gssvx; refactorizations with a reused row permutation after a former pivot became exactly zero, thresholds down to 0")
@@ -83,7 +83,7 @@ def mc_mem(run, thorough_too=True):
 def check_C05(run):
     mc_factor(run, ["q", "c"], ["p"])
     g = Gen(run.seed * 1000 + 5)
-    types = {"d": 1.0, "z": 0.8, "s": 0.3, "c": 0.3} if run.tier == "quick" else FULL_TYPES
+    types = {"d": 0.85, "z": 0.8, "s": 0.35, "c": 0.35} if run.tier == "quick" else FULL_TYPES
     run.conform("gssvx", F.fam_gssvx(g, "C05", sizes(run, 700, 5000), types), ["C05."])
     return run.finish(rule="generated systems through ?gssvx: every Trans x Equil x storage x IterRefine, power-of-two row/column scalings forcing equed N/R/C/B, complex data with nonzero imaginary parts")
 
@@ -100,7 +100,7 @@ def check_C06(run):
     g.r.shuffle(hists)
     scen = {}
     if run.tier == "quick":
-        plan = {"d": 260, "z": 90, "s": 40, "c": 30}
+        plan = {"d": 220, "z": 90, "s": 60, "c": 60}
     else:
         plan = {"d": len(hists), "z": len(hists), "s": len(hists) // 2, "c": len(hists) // 2}
     for ty, k in plan.items():
@@ -129,7 +129,7 @@ def check_C11(run):
     for c in (["d22"] if run.tier == "quick" else ["d22", "s23", "d32"]):
         run.model_check("Equil_" + c, "MC_Equil.tla", "MC_Equil_%s.cfg" % c, coverage=False)
     g = Gen(run.seed * 1000 + 11)
-    types = {"d": 1.0, "s": 0.6, "z": 0.5, "c": 0.4} if run.tier == "quick" else FULL_TYPES
+    types = {"d": 0.85, "z": 0.5, "s": 0.6, "c": 0.4} if run.tier == "quick" else FULL_TYPES
     run.conform("equ", F.fam_equ(g, "C11", sizes(run, 1200, 12000), types), ["C11."])
     run.conform("equ_float", F.fam_equ(g, "C11", sizes(run, 300, 3000), types, float_slice=True), ["C11."])
     return run.finish(rule="matrices up to 4x4 with entries +-2^e over the whole exponent range of the type (subnormal to near overflow, empty rows/columns, explicit zeros, complex entries measured as |re|+|im|): every output of ?gsequ/?laqgs compared as an exponent with SluEquil; random mantissas for the rounding slice")
@@ -139,7 +139,7 @@ def check_C12(run):
     run.model_check("Cond_2", "MC_Cond.tla", "MC_Cond_2.cfg", coverage=False)
     run.model_check("Cond_3", "MC_Cond.tla", "MC_Cond_3.cfg", coverage=False)
     g = Gen(run.seed * 1000 + 12)
-    types = {"d": 1.0, "s": 0.4, "z": 0.4, "c": 0.2} if run.tier == "quick" else FULL_TYPES
+    types = {"d": 0.85, "z": 0.45, "s": 0.4, "c": 0.35} if run.tier == "quick" else FULL_TYPES
     run.conform("lacon", F.fam_lacon(g, "C12", sizes(run, 400, 4000), {"d": 1.0, "s": 0.5}), ["C12."])
     run.conform("cond", merge(F.fam_cond(g, "C12", sizes(run, 700, 6000), types), F.fam_singular(g, "C12", sizes(run, 150, 1500), types, fn="gssvx")), ["C12."])
     return run.finish(rule="the estimator automaton replayed on explicit operators; expert-driver runs over graded / generic / random-float systems with condition numbers from 1 to beyond 1/eps, both norms (Trans), both storages, equilibration on/off; singular systems for the growth factor")
@@ -147,7 +147,7 @@ def check_C12(run):
 
 def check_C13(run):
     g = Gen(run.seed * 1000 + 13)
-    types = {"d": 1.0, "s": 0.4, "z": 0.5, "c": 0.2} if run.tier == "quick" else FULL_TYPES
+    types = {"d": 0.85, "z": 0.5, "s": 0.4, "c": 0.35} if run.tier == "quick" else FULL_TYPES
     run.conform("refine", merge(F.fam_cond(g, "C13", sizes(run, 700, 6000), types), F.fam_gssvx(g, "C13", sizes(run, 400, 4000), types),
                                 F.fam_slowrefine(g, "C13", sizes(run, 250, 2500), types)), ["C13."])
     return run.finish(rule="expert-driver runs with refinement on/off over well / ill conditioned and badly scaled systems, all Trans, zero right-hand-side columns; refinement-loop events validated against the loop automaton, BERR against the exact backward error of the returned X")
@@ -156,7 +156,7 @@ def check_C13(run):
 def check_C14(run):
     mc_factor(run, ["q", "c"], ["p"])       # SolveCorrect: the kernels' specification composes to a correct solve for N / T / C
     g = Gen(run.seed * 1000 + 14)
-    types = {"d": 1.0, "z": 0.6, "s": 0.3, "c": 0.3} if run.tier == "quick" else FULL_TYPES
+    types = {"d": 0.85, "z": 0.6, "s": 0.35, "c": 0.35} if run.tier == "quick" else FULL_TYPES
     run.conform("kernels", F.fam_kernels(g, "C14", sizes(run, 500, 4000), types), ["C14."])
     return run.finish(rule="factor pairs from ?gstrf on exact-domain matrices; sp_?trsv over every (uplo, trans, diag) combination and the documented lower-case spellings; ?gstrs nrhs 1..4 with padded B; sp_?gemv / sp_?gemm on rectangular matrices with alpha/beta in {0,1,-1,2,1/2}, strides, NaN-poisoned y for beta = 0")
 
@@ -164,7 +164,7 @@ def check_C14(run):
 def check_C15(run):
     mc_factor(run, ["q"], ["p"])
     g = Gen(run.seed * 1000 + 15)
-    types = {"d": 1.0, "z": 0.3, "s": 0.2, "c": 0.15} if run.tier == "quick" else FULL_TYPES
+    types = {"d": 0.85, "z": 0.45, "s": 0.35, "c": 0.35} if run.tier == "quick" else FULL_TYPES
     scen = merge(F.fam_ilu(g, "C15", sizes(run, 1500, 12000), types), F.fam_ilu_split(g, "C15", sizes(run, 300, 3000), types))
     run.conform("ilu", scen, ["C15.", "C03."])
     # "never breaks down": the same runs under ASan + UBSan (observer)
@@ -179,7 +179,7 @@ def check_C16(run):
     run.model_check("IO_exact", "SluIO.tla", "MC_IO_exact.cfg", coverage=False)
     run.model_check("IO_legacy", "SluIO.tla", "MC_IO_legacy.cfg", expect_violation=True, coverage=False)
     g = Gen(run.seed * 1000 + 16)
-    types = {"d": 1.0, "z": 0.5, "s": 0.4, "c": 0.3} if run.tier == "quick" else FULL_TYPES
+    types = {"d": 0.85, "z": 0.5, "s": 0.4, "c": 0.35} if run.tier == "quick" else FULL_TYPES
     outdir = os.path.join(vlib.WORK, "files_C16")
     scen = F.fam_readers(g, "C16", sizes(run, 900, 6000), types, outdir)
     run.conform("readers", scen, ["C16."])
@@ -193,8 +193,14 @@ def check_C17(run):
     if run.tier != "quick":
         run.model_check("Match_4", "MC_Match.tla", "MC_Match_4.cfg", coverage=False)
     g = Gen(run.seed * 1000 + 17)
-    types = {"d": 1.0, "s": 0.5, "z": 0.5, "c": 0.4} if run.tier == "quick" else FULL_TYPES
+    types = {"d": 0.85, "z": 0.5, "s": 0.5, "c": 0.4} if run.tier == "quick" else FULL_TYPES
     run.conform("ldperm", F.fam_ldperm(g, "C17", sizes(run, 600, 6000), types, exhaustive3=True), ["C17."])
+    # the heap routines one operation at a time: TLC enumerates the histories (SluHeap), the real mc64dd_/ed_/fd_ execute them
+    objs, st, out = vlib.tlc_generate("C17_heap", "SluHeap.tla", "SluHeap.cfg" if run.tier == "quick" else "SluHeap_6.cfg")
+    if "No error has been found" not in out:
+        raise vlib.Broken("SluHeap generator failed:\n" + out[-2000:])
+    run.mc.append({"name": "SluHeap", "module": "SluHeap.tla", "cfg": "SluHeap.cfg", "states": st["generated"], "distinct": st["distinct"], "depth": st["depth"], "wall_s": 0, "ok": True, "coverage": {}})
+    run.conform("heap", F.fam_heap(g, "C17", [o["ops"] for o in objs], sizes(run, 600, 6000)), ["C17."], per_chunk=120)
     return run.finish(rule="every 3x3 pattern and random patterns of order 1..5 with weights +-2^e (ties, zero diagonals, structurally singular ones included) and random mantissas, real and complex, single and double: matching, optimality (brute force over all perfect matchings), dual scalings, untouched arrays")
 
 
@@ -207,7 +213,7 @@ def check_C20(run):
     hists = [o["hist"] for o in objs]
     g = Gen(run.seed * 1000 + 20)
     scen = {}
-    for ty in (("d", "z") if run.tier == "quick" else ("d", "z", "s", "c")):
+    for ty in ("d", "z", "s", "c"):
         scen[ty] = [F.bridge_scenario(g, "C20-bridge-%05d-%s" % (i, ty), ty, h) for i, h in enumerate(hists)]
     run.conform("bridge", scen, ["C20."])
     return run.finish(rule="TLC enumerates every request history (factor / solve / free) over two handles up to length 5 (7 thorough) that follows the protocol; each is executed through c_fortran_?gssv_ with 1-based copies of generated matrices, nrhs 1..3, ldb >= n; every solve is compared bit for bit with the simple driver on the same system", exhaustive=True)
@@ -319,13 +325,13 @@ def check_C19(run):
     lives = tlc_lifecycles(run)
     g = Gen(run.seed * 1000 + 19)
     g.r.shuffle(lives)
-    plan = {"d": 420, "z": 120, "s": 60, "c": 60} if run.tier == "quick" else {"d": 6000, "z": 3000, "s": 1500, "c": 1500}
+    plan = {"d": 360, "z": 120, "s": 90, "c": 90} if run.tier == "quick" else {"d": 6000, "z": 3000, "s": 1500, "c": 1500}
     scen = {ty: [F.lifecycle_scenario(g, "C19-life-%05d-%s" % (i, ty), ty, lives[(i * 7 + k) % len(lives)]) for i in range(cnt)] for k, (ty, cnt) in enumerate(plan.items())}
     pref = ["C19."]
     # ledger discipline (V0: ledger, red zones, poisoned fresh blocks)
     run.conform("life", scen, pref, tv_env={"MODE": "light"})
     # the same lifecycles and the factor / storage families under ASan + UBSan (observer)
-    types = {"d": 1.0, "z": 0.4, "s": 0.2, "c": 0.2}
+    types = {"d": 0.85, "z": 0.45, "s": 0.35, "c": 0.35}
     g2 = Gen(run.seed * 1000 + 191)
     fam2 = merge(F.fam_gssv(g2, "C19", sizes(run, 300, 3000), types), F.fam_gstrf(g2, "C19", sizes(run, 150, 1500), types),
                  F.fam_singular(g2, "C19", sizes(run, 100, 1000), types), F.fam_gssvx(g2, "C19", sizes(run, 200, 2000), types),
@@ -337,7 +343,18 @@ def check_C19(run):
     half = {ty: lst[: max(1, len(lst) // (2 if run.tier == "quick" else 1))] for ty, lst in scen.items()}
     res = run.conform("life_asan", half, pref, variant="v2", harness_env=SAN_ENV, tv_env={"MODE": "light"})
     res2 = run.conform("fam_asan", fam2, pref, variant="v2", harness_env=SAN_ENV, tv_env={"MODE": "light"})
-    run.observers["asan_ubsan"]["scenarios"] = sum(len(r["scen"]) for r in res + res2)
+    # the other entry points of the lifecycles named by the property: orderings, readers, MC64, equilibration, kernels, the
+    # incomplete factorization and the Fortran-callable bridge, under the same observer (their own checks hold the ledger
+    # clauses; here only memory errors and undefined arithmetic are looked for)
+    g3 = Gen(run.seed * 1000 + 192)
+    t3 = {"d": 0.85, "z": 0.5, "s": 0.35, "c": 0.35}
+    outdir = os.path.join(vlib.WORK, "files_C19")
+    fam3 = merge(F.fam_readers(g3, "C19", sizes(run, 120, 1200), t3, outdir), F.fam_order(g3, "C19", sizes(run, 100, 1000)),
+                 F.fam_ldperm(g3, "C19", sizes(run, 80, 800), t3), F.fam_equ(g3, "C19", sizes(run, 80, 800), t3),
+                 F.fam_kernels(g3, "C19", sizes(run, 60, 600), t3), F.fam_ilu(g3, "C19", sizes(run, 150, 1500), t3),
+                 F.fam_cond(g3, "C19", sizes(run, 100, 1000), t3))
+    res3 = run.conform("entry_asan", fam3, ["C19.sanitizer", "C19.redzone", "C19.bad_free", "C19.abnormal_end"], variant="v2", harness_env=SAN_ENV, tv_env={"MODE": "light"})
+    run.observers["asan_ubsan"]["scenarios"] = sum(len(r["scen"]) for r in res + res2 + res3)
     if run.tier != "quick":
         vg = {"d": scen["d"][:200], "z": scen["z"][:100]}
         run.conform("life_valgrind", vg, pref, wrapper=["valgrind", "-q", "--error-exitcode=96", "--trace-children=yes", "--child-silent-after-fork=no"], timeout=120, tv_env={"MODE": "light"}, nchunks=16)
